@@ -11,6 +11,7 @@ Interp.tla (property C10).
 """
 import json
 import os
+import re
 
 import vlib
 from families import common
@@ -183,6 +184,10 @@ def _probe_stats(path, stats):
                 if ev["qual"] == 1:
                     stats[key + "_qualified"] = \
                         stats.get(key + "_qualified", 0) + 1
+            elif '"iso":' in ln and '"iso":0' not in ln:
+                m = re.search(r'"iso":(\d+)', ln)
+                stats["rat_isolated_singularities"] = \
+                    stats.get("rat_isolated_singularities", 0) + int(m.group(1))
             elif ln.startswith('{"e":"CalMake"') and '"ok":0' in ln:
                 stats["cal_setup_failed"] = stats.get("cal_setup_failed", 0) + 1
 
